@@ -1,7 +1,6 @@
 #![allow(non_camel_case_types, non_snake_case, dead_code)]
 #[tarpc::service]
-pub trait Rej47 {
-    async fn _a_b(a0: i32, a1: String) -> String;
-    async fn serve();
+pub trait Rej57 {
+    async fn r#fn(ctx: tarpc::context::Context);
 }
 fn main() {}
